@@ -406,6 +406,16 @@ thread_local! {
         const { std::cell::RefCell::new(Vec::new()) };
 }
 
+struct FillingGuard;
+
+impl Drop for FillingGuard {
+    fn drop(&mut self) {
+        FILLING.with(|filling| {
+            filling.borrow_mut().pop();
+        });
+    }
+}
+
 fn value_for_struct_props(
     properties: &[StructProperty],
     value: &serde_json::Value,
@@ -443,9 +453,10 @@ fn value_for_struct_props(
             }
             let type_entry = type_space.id_to_entry.get(&prop.type_id).unwrap();
             FILLING.with(|filling| filling.borrow_mut().push(key));
-            let prop_value = type_entry.output_value(type_space, prop_default, scope);
-            FILLING.with(|filling| filling.borrow_mut().pop());
-            let prop_value = prop_value?;
+            // Popped when this goes out of scope, also on unwinding: nothing
+            // is left behind for a later rendering on this thread.
+            let _filling = FillingGuard;
+            let prop_value = type_entry.output_value(type_space, prop_default, scope)?;
 
             Some(quote! { #name_ident: #prop_value })
         } else {
